@@ -37,6 +37,36 @@ Theorem c24_first_in_visit_order : forall wl t k,
     forallb (fun p => negb (bad_node wl p)) before = true.
 Proof. exact rejected_first. Qed.
 
+(* The visitor visits EVERY descendant, whatever lies in between: for any
+   whitelist (in particular one that contains Attribute, Subscript or Call,
+   like RankingExpressionEvaluator's), an accepted expression has only
+   whitelisted node kinds at every depth — every sub-tree of an accepted tree
+   is itself accepted — and a bad node beneath any chain of whitelisted
+   parents (`f().real`, `(x := f()).real`, `[f() for _ in y].count`, ...)
+   makes the whole expression rejected. *)
+Theorem c24_every_descendant_visited : forall t s,
+  descendant s t -> In (kind_of s, ident_of s) (preorder_nodes t).
+Proof. exact descendant_in_preorder. Qed.
+
+Theorem c24_accepted_at_every_depth : forall wl t s,
+  descendant s t -> first_bad wl t = None ->
+  first_bad wl s = None /\
+  whitelisted wl (kind_of s) = true /\ reserved_name (kind_of s) (ident_of s) = false.
+Proof.
+  intros wl t s Hd H. split; [eapply accepted_descendant; eauto|].
+  eapply accepted_descendant_whitelisted; eauto.
+Qed.
+
+Theorem c24_bad_descendant_rejected : forall wl t s,
+  descendant s t -> bad_node wl (kind_of s, ident_of s) = true ->
+  exists k, first_bad wl t = Some k.
+Proof. exact bad_descendant_rejected. Qed.
+
+(* the children of a node of ANY kind (Attribute included) are checked *)
+Theorem c24_children_checked : forall wl k n cs c,
+  first_bad wl (Node k n cs) = None -> In c cs -> first_bad wl c = None.
+Proof. exact accepted_children. Qed.
+
 (* ... "before any part of it is evaluated": the evaluator's outcome is
    `Rejected k` exactly when the visitor found k, and then nothing at all was
    evaluated — no supplied object was touched (empty trace) and the outcome does
@@ -185,6 +215,17 @@ Example c24_ex_builtins_rejected :
   restricted_eval ex_env ex_truthy completion_whitelist
     (Some (Node "Expression" 0 [Node "BoolOp" 0 [Node "Or" 0 []; name 3; name BUILTINS]]))
   = ([], Rejected "Name").
+Proof. vm_compute. reflexivity. Qed.
+(* canary().real under the production ranking whitelist: Attribute is
+   whitelisted, the Call beneath it is still found *)
+Definition ex_call_under_attr : pyast :=
+  Node "Expression" 0 [Node "Attribute" 0 [Node "Call" 0 [name 2]; Node "Load" 0 []]].
+Example c24_ex_call_under_attribute_rejected :
+  restricted_eval ex_env ex_truthy ranking_whitelist (Some ex_call_under_attr) = ([], Rejected "Call").
+Proof. vm_compute. reflexivity. Qed.
+Example c24_ex_attribute_alone_accepted :
+  first_bad ranking_whitelist
+    (Node "Expression" 0 [Node "Attribute" 0 [name 2; Node "Load" 0 []]]) = None.
 Proof. vm_compute. reflexivity. Qed.
 Example c24_ex_wf : binop_wf operator_kinds ex_add = true.
 Proof. vm_compute. reflexivity. Qed.
